@@ -1,6 +1,9 @@
 import CalVerif.Lemmas.Metadata
 import CalVerif.Lemmas.MetadataFormula
-import CalVerif.Model.MetadataCells
+import CalVerif.Lemmas.MetadataCompose
+import CalVerif.Props.C01
+import CalVerif.Props.C02
+import CalVerif.Props.C03
 /-! # C16 — workbook metadata is reported faithfully and in workbook order
 
     Theorems about the model `CalVerif/Model/Metadata.lean` (tied to /repo by `harness/src/bin/c16.rs`) and the
@@ -637,55 +640,126 @@ example :
            [("n1", "$'A & <B>'.$A$1"), ("n2", "")], false⟩ := by
   decide
 
-/-! ## the date-system flag reaches the date cells (with C10's model of the value wrapping) -/
+/-! ## the date-system flag reaches the date cells: open, then read a sheet
 
-/-- a numeric cell whose style is a date/time format comes back as an `ExcelDateTime` that carries exactly the
-    workbook's flag (float and integer paths); any other cell carries no flag -/
-theorem date1904_reaches_cells {α : Type} (wb : Workbook α) (fmt : Option CellFormat) (v : UInt64) (i : Int) :
-    ((fmt = some .dateTime ∨ fmt = some .timeDelta) →
-        flagOf (floatCell wb fmt v) = some wb.is1904 ∧ flagOf (intCell wb fmt i) = some wb.is1904) ∧
-    (fmt ≠ some .dateTime → fmt ≠ some .timeDelta → flagOf (floatCell wb fmt v) = none ∧ flagOf (intCell wb fmt i) = none) := by
-  constructor
-  · rintro (rfl | rfl) <;> exact ⟨rfl, rfl⟩
-  · intro h1 h2
-    match fmt, h1, h2 with
-    | none, _, _ => exact ⟨rfl, rfl⟩
-    | some .other, _, _ => exact ⟨rfl, rfl⟩
-    | some .dateTime, h1, _ => exact absurd rfl h1
-    | some .timeDelta, _, h2 => exact absurd rfl h2
+    The workbook-level model of this property composed with the cell-reader models of C03 (xlsb), C02 (xls) and C01
+    (xlsx) — `Model/MetadataCompose.lean`: the cell readers take their flag from the state that opening the workbook
+    produced. The theorems below are about the bytes / events of generated workbooks (the encoders of this property for
+    the workbook level, those of C03 / C02 / C01 for the sheet) and cover every numeric record kind and encoding,
+    because the sheet-level theorems they rest on (`xlsb_sheet_roundtrip`, `biff_sheet_date_typing`,
+    `xlsx_range_spec`, `numeric_cell_by_style`) do. -/
 
-/-- xls: every date-styled numeric cell of every sheet shows the flag the DATEMODE record declares -/
-theorem date1904_reaches_cells_xls (pd : Bytes → Res (Option Nat × Text))
-    (recs : List GRec) (hall : ∀ r ∈ recs, r.ok pd) (tail : Bytes) (htail : Biff.notCont tail)
-    (hoff : ∀ s ∈ declaredSheets recs, s.offset ≤ (encodeGlobals recs tail).length)
-    (wb : Workbook Text) (h : parseWorkbookXls pd (encodeGlobals recs tail) = .ok wb)
-    (fmt : Option CellFormat) (hf : fmt = some .dateTime ∨ fmt = some .timeDelta) (v : UInt64) (i : Int) :
-    flagOf (floatCell wb fmt v) = some (declared1904 recs) ∧ flagOf (intCell wb fmt i) = some (declared1904 recs) := by
-  rw [← date1904_flag_xls pd recs hall tail htail hoff wb h]
-  exact (date1904_reaches_cells wb fmt v i).1 hf
-
-/-- xlsb: every date-styled numeric cell shows bit 0 of BrtWbProp -/
+/-- **xlsb hand-over: open, then read a sheet.** The workbook part declares the date system `d = flagW recs`
+    (bit 0 of BrtWbProp); `worksheet_range` builds the cell reader's context from the state `read_workbook` left
+    (`xlsbCtx`). For every sheet part laid out by C03's encoder (any prologue, any framing, any cell records), reading
+    it through the composed model succeeds with C03's range, and
+    (a) the range holds at every cell position the value the sheet specification lists for it (distinct positions),
+    (b) no `DateTime` anywhere in the sheet carries a flag other than `d`,
+    (c) a numeric cell of ANY record kind and encoding — BrtCellReal, BrtFmlaNum (`real`), BrtCellRk integer,
+        integer÷100, float, float÷100 (`rk w`, all `w`) — under a date/time style is listed as a `DateTime` with
+        flag `d`. -/
 theorem date1904_reaches_cells_xlsb (pf : Bytes → List Text → List (Text × Text) → Res Text) (rels : List (Text × String))
     (recs : List WRec) (hall : ∀ r ∈ recs, r.ok rels) (ew : Bool) (el : Nat)
+    (nrecs : List NRec) (hok : namesOk pf ((declaredW recs).map (XlsbSheet.decoded rels)) ([], []) nrecs)
     (t : Nat) (ht : isAfterNames t = true) (tw : Bool) (tl : Nat) (rest : Bytes)
-    (wb : Workbook Text) (p : List (List Char))
-    (h : readWorkbookXlsb pf rels (encodeWorkbookBin recs ew el (Xlsb.frame t [] tw tl ++ rest)) = .ok (wb, p))
-    (fmt : Option CellFormat) (hf : fmt = some .dateTime ∨ fmt = some .timeDelta) (v : UInt64) (i : Int) :
-    flagOf (floatCell wb fmt v) = some (flagW recs) ∧ flagOf (intCell wb fmt i) = some (flagW recs) := by
-  rw [← date1904_flag_xlsb pf rels recs hall ew el t ht tw tl rest wb p h]
-  exact (date1904_reaches_cells wb fmt v i).1 hf
+    (formats : List Nat) (strings : List (List Nat))
+    (pre1 pre2 : List Xlsb.Seg) (dims : Bytes) (dw : Bool) (dl : Nat) (bp : Bytes) (bw : Bool) (bl : Nat)
+    (data : List Xlsb.Framed) (ew' : Bool) (el' : Nat) (post : Bytes)
+    (h1 : ∀ s ∈ pre1, s.OK 0x0094 Xlsb.bounds1) (h2 : ∀ s ∈ pre2, s.OK 0x0091 Xlsb.bounds2)
+    (hd : 16 ≤ dims.length ∧ dims.length < 268435456) (hb : bp.length < 268435456)
+    (hokd : ∀ d ∈ data, d.item.OK ⟨formats, strings, flagW recs⟩)
+    (hS : ∀ c ∈ Xlsb.specCells ⟨formats, strings, flagW recs⟩ (data.map (·.item)) 0, c.1 < 1048576 ∧ c.2.1 < 16384)
+    (hdist : (Xlsb.specCells ⟨formats, strings, flagW recs⟩ (data.map (·.item)) 0).Pairwise (fun a b => ¬ (a.1 = b.1 ∧ a.2.1 = b.2.1))) :
+    ∃ r, openReadXlsb pf rels (encodeWorkbookBin recs ew el (nrecs.flatMap NRec.bytes ++ (Xlsb.frame t [] tw tl ++ rest)))
+          formats strings (Xlsb.sheetBytes pre1 dims dw dl pre2 bp bw bl data ew' el' post) = .ok r ∧
+      (∀ c ∈ Xlsb.specCells ⟨formats, strings, flagW recs⟩ (data.map (·.item)) 0, r.valAt c.1 c.2.1 = c.2.2) ∧
+      (∀ c ∈ Xlsb.specCells ⟨formats, strings, flagW recs⟩ (data.map (·.item)) 0, ∀ (b : Nat) (td f : Bool),
+          c.2.2 = .dateTime b td f → f = flagW recs) ∧
+      (∀ (style : Nat) (content : Xlsb.Content), xlsbNumeric content →
+          (formats[style % 16777216]? = some 1 ∨ formats[style % 16777216]? = some 2) →
+          ∃ bits td, Xlsb.valueOf ⟨formats, strings, flagW recs⟩ style content = some (.dateTime bits td (flagW recs))) := by
+  obtain ⟨r, hr, _, _, _, _, _, hat, _⟩ :=
+    Xlsb.xlsb_sheet_roundtrip ⟨formats, strings, flagW recs⟩ pre1 pre2 dims dw dl bp bw bl data ew' el' post h1 h2 hd hb hokd hS
+  refine ⟨r, ?_, hat hdist, ?_, ?_⟩
+  · unfold openReadXlsb
+    rw [sheets_in_order_xlsb pf rels recs hall ew el nrecs hok t ht tw tl rest]
+    exact hr
+  · intro c hc b td f hv
+    exact xlsb_specCells_flag ⟨formats, strings, flagW recs⟩ _ 0 c hc b td f hv
+  · intro style content hn hf
+    exact xlsb_valueOf_date ⟨formats, strings, flagW recs⟩ style content hn hf
 
-/-- xlsx: every date-styled numeric cell shows `date1904 ∈ {"1", "true"}` of `<workbookPr>`, under any prefix -/
-theorem date1904_reaches_cells_xlsx (rels : List (String × String)) (q : String → String) (hq : QOk q)
+/-- **xls hand-over: open, then read a sheet.** The globals declare the date system `d = declared1904 recs` (a DATEMODE
+    record with 1); the substream of a sheet follows at the stream offset `pos` right behind the globals (any logical
+    sheet and any record layout of C02's encoder: NUMBER, every RK word that denotes the number — integer, integer÷100,
+    float, float÷100 —, MULRK runs, FORMULA results, any XF per cell). `parse_workbook` reads that substream with the
+    environment built from the state the globals loop left (`xlsEnv`): every numeric cell whose XF's format is a
+    date/time (elapsed time) format reads `DateTime(x, DateTime (TimeDelta), d)` — the serial is the cell's number, the
+    date system the one the globals declare; under any other XF it is not a `DateTime`. -/
+theorem date1904_reaches_cells_xls (pd : Bytes → Res (Option Nat × Text)) (recs : List GRec) (hall : ∀ r ∈ recs, r.ok pd)
+    (ops : BiffCells.FOps) (fmts : List CellFormat) (strings : List (List Nat))
+    (S : List BiffCells.LCell) (lays : List BiffCells.Lay) (hS : ∀ c ∈ S, BiffCells.cellOk c) (hsorted : S.Pairwise BiffCells.cellLt)
+    (hoff : ∀ s ∈ declaredSheets recs,
+      s.offset ≤ (encodeGlobals recs (BiffCells.substream ⟨ops, fmts, declared1904 recs, strings⟩ S lays)).length)
+    (i : Nat) (hi : i < S.length) (x : Nat) (hv : S[i].val = .num x) :
+    ∃ r, openReadXls pd (encodeGlobals recs (BiffCells.substream ⟨ops, fmts, declared1904 recs, strings⟩ S lays))
+          ops fmts strings (encodeGlobals recs []).length = .ok r ∧
+      (fmts[(lays[i]?.getD default).xf % 65536]? = some .dateTime →
+        r.valAt S[i].row S[i].col = .dt x .dateTime (declared1904 recs)) ∧
+      (fmts[(lays[i]?.getD default).xf % 65536]? = some .timeDelta →
+        r.valAt S[i].row S[i].col = .dt x .timeDelta (declared1904 recs)) ∧
+      (fmts[(lays[i]?.getD default).xf % 65536]? ≠ some .dateTime → fmts[(lays[i]?.getD default).xf % 65536]? ≠ some .timeDelta →
+        ∀ b k d, r.valAt S[i].row S[i].col ≠ .dt b k d) := by
+  obtain ⟨r, hr, h1, h2, h3⟩ :=
+    BiffCells.biff_sheet_date_typing ⟨ops, fmts, declared1904 recs, strings⟩ S lays hS hsorted i hi x hv
+  refine ⟨r, ?_, h1, h2, h3⟩
+  unfold openReadXls
+  rw [sheets_in_order_xls pd recs hall _ (notCont_substream _ S lays) hoff]
+  simp only [xlsEnv]
+  rw [encodeGlobals_tail recs (BiffCells.substream _ S lays), List.drop_left' rfl]
+  exact hr
+
+open XlsxCells XlsxSheet in
+/-- **xlsx hand-over: open, then read a sheet.** `xl/workbook.xml` declares the date system through
+    `<workbookPr date1904="d"/>` (any prefix, inert siblings, any extension list); the cell reader of a worksheet part
+    (any logical sheet, any legal layout of C01's encoder) types its numbers with the flag of the state `read_workbook`
+    left (`xlsxEnv`). Every numeric cell — `<v>` with or without `t="n"`, with or without a formula (cached number) —
+    whose style selects a date/time (elapsed-time) format reads, at its own position, `DateTime(b, DateTime (TimeDelta),
+    d ∈ {"1","true"})` where `b` is the parsed number. -/
+theorem date1904_reaches_cells_xlsx (rels : List (String × String)) (qf : String → String) (hq : QOk qf)
     (ridKey : String) (hk : ridKeyOk ridKey) (d : String)
     (sheets : List XSheet) (hs : ∀ s ∈ sheets, s.ok rels) (names : List (String × List (Bool × String)))
-    (ext : Option (List Ev)) (hext : ∀ body, ext = some body → ExtOk (q "extLst") body) (g : Gaps) (hg : g.ok)
-    (wb : Workbook String) (p : List (List Char))
-    (h : readWorkbookXlsx rels (workbookEvents q ridKey (some [("date1904", d)]) sheets names ext g) = .ok (wb, p))
-    (fmt : Option CellFormat) (hf : fmt = some .dateTime ∨ fmt = some .timeDelta) (v : UInt64) (i : Int) :
-    flagOf (floatCell wb fmt v) = some (d = "1" || d = "true") ∧ flagOf (intCell wb fmt i) = some (d = "1" || d = "true") := by
-  rw [← date1904_flag_xlsx rels q hq ridKey hk d sheets hs names ext hext g hg wb p h]
-  exact (date1904_reaches_cells wb fmt v i).1 hf
+    (ext : Option (List Meta.Ev)) (hext : ∀ body, ext = some body → ExtOk (qf "extLst") body) (g : Gaps) (hg : g.ok)
+    (cfg : Cfg) (parse : XlsxCells.Bytes → Option UInt64) (s : Sheet) (lay : Layout) (hl : lay.Legal) (hwf : s.WF)
+    (hok : s.ContentOk cfg) (hnum : s.NumOk ⟨parse, (d = "1" || d = "true")⟩)
+    (row : RowSpec) (hrow : row ∈ s) (cell : Nat × CellSpec) (hcell : cell ∈ row.2)
+    (t : XlsxCells.Bytes) (tn : Bool) (style f : Option XlsxCells.Bytes) (b : UInt64)
+    (hc : cell.2 = ⟨.num t tn, style, f⟩) (ht : t ≠ []) (hp : parse t = some b) :
+    (styleFmt cfg style = .dateTime →
+      openReadXlsx rels (workbookEvents qf ridKey (some [("date1904", d)]) sheets names ext g) cfg parse (renderSheet s lay) row.1 cell.1 =
+        .ok (.num (.dateTime (.bits b) .dateTime (d = "1" || d = "true")))) ∧
+    (styleFmt cfg style = .timeDelta →
+      openReadXlsx rels (workbookEvents qf ridKey (some [("date1904", d)]) sheets names ext g) cfg parse (renderSheet s lay) row.1 cell.1 =
+        .ok (.num (.dateTime (.bits b) .timeDelta (d = "1" || d = "true")))) := by
+  have hwb := sheets_in_order_xlsx rels qf hq ridKey hk (some [("date1904", d)]) sheets hs names ext hext g hg
+  have hflag : date1904Attr [("date1904", d)] = (d = "1" || d = "true") := by simp [date1904Attr, List.lookup]
+  have key : ∀ (dv : Data), expectData ⟨parse, (d = "1" || d = "true")⟩ cfg cell.2 = dv → dv ≠ .empty →
+      openReadXlsx rels (workbookEvents qf ridKey (some [("date1904", d)]) sheets names ext g) cfg parse (renderSheet s lay) row.1 cell.1 = .ok dv := by
+    intro dv hdv hne
+    have hspec := (XlsxCells.xlsx_range_spec ⟨parse, (d = "1" || d = "true")⟩ cfg s lay hl hwf hok hnum).2
+    have hmem : (row.1, cell.1, dv) ∈ dataOf ⟨parse, (d = "1" || d = "true")⟩ cfg s :=
+      (mem_dataOf _ cfg s _).mpr ⟨row, hrow, cell, hcell, by rw [hdv]⟩
+    obtain ⟨rg, hrg, _, _, _, _, _, _, hval, _⟩ := hspec ⟨_, hmem, hne⟩
+    unfold openReadXlsx
+    rw [hwb]
+    simp only [Option.map_some, Option.getD_some, hflag, xlsxEnv, hrg]
+    exact hval _ hmem
+  obtain ⟨_, _, hdt, htd⟩ := XlsxCells.numeric_cell_by_style ⟨parse, (d = "1" || d = "true")⟩ cfg t tn style f b ht hp
+  constructor
+  · intro hst
+    exact key _ (by rw [hc]; exact hdt hst) (by simp)
+  · intro hst
+    exact key _ (by rw [hc]; exact htd hst) (by simp)
 
 /-! ## xlsx: the date-system flag under a namespace prefix (ledger D22) -/
 
